@@ -262,10 +262,11 @@ def check_agree(ctx: Ctx, rule: str, site: str, construct: str, found: Term, ref
     # values is a genuine difference; agreement on {0, 1} alone decides nothing.
     extra = [a for a in free_atoms(found, known) if a not in known and a[0] != "c"]
     ranges2 = dict(ranges)
+    params2 = dict(params)
     for a in extra:
-        ranges2[a] = (0, 1)
+        params2[a] = (False, True)  # one-bit signals: `~x` is their complement, not the integer complement
     try:
-        cex = agree_bounded(found, ref, box(params, ranges2), known + extra)
+        cex = agree_bounded(found, ref, box(params2, ranges2), known + extra)
     except NotEvaluable as e:
         raise AnalysisError(rule, site, f"{construct}: cannot evaluate {tstr(found)[:120]} ({e})")
     if cex is None and extra:
